@@ -19,6 +19,29 @@ NONTRIVIAL = ("a run is non-trivial if the scheduler had at least one decision p
               "or at least one injected fault fired; distinct = distinct (scenario, plan hash, event-log hash)")
 
 PROPS = {
+    "C08": {
+        "rule": "1..4 rounds of 1..6 concurrent connections against Http::Endpoint (75 %) or a raw Tcp::Listener (25 %), client behaviour drawn per "
+                "connection from 18 kinds (orderly, close mid-request, half-close, RST idle / with unread data / with pending writes, silence, partial "
+                "request then silence, giving up near the idle time-out, stalled reader across idle scans, response time-outs armed/disarmed, file "
+                "responses completed or aborted, replies from another thread aborted, never answered, chunked streams); thread stalls injected; " + NONTRIVIAL,
+        "probes_expected": ["behaviour-" + b for b in ["orderly", "close-mid-request", "half-close", "rst-idle", "rst-unread", "rst-pending", "silence",
+                            "partial-then-silence", "tmo", "tmoreply", "file", "file-abort", "async-abort", "never-close", "stream",
+                            "silence-close-near-timeout", "silence-abort-near-timeout", "stall-beyond-timeout"]],
+        "assumptions": ["the descriptor census is taken after all clients are gone and the longest time-out plus 1.5 s have elapsed"],
+        "quick": {"batches": [("c08_lifecycle", "plain", 3000), ("c08_moved_timeout", "plain", 16), ("c08_lifecycle", "asan", 300)], "chunk": 50},
+        "thorough": {"batches": [("c08_lifecycle", "plain", 80000), ("c08_moved_timeout", "plain", 64), ("c08_lifecycle", "asan", 8000), ("c08_lifecycle", "tsan", 8000)], "chunk": 200},
+    },
+    "C14": {
+        "rule": "size limit drawn from 64 B..8 KiB, header/body time-outs from 1..10 s (all orders), 1..3 workers; per connection either a request of "
+                "total size limit-1 / limit / limit+1 / random (Content-Length or chunked) in a drawn segmentation, or a stall at a drawn point "
+                "(connect, request line, headers, body, between keep-alive requests) for a duration outside the band [T-0.3 s, T+0.8 s]; " + NONTRIVIAL,
+        "probes_expected": ["size-limit-minus-1", "size-at-limit", "size-limit-plus-1", "size-over", "size-under", "several-workers-used"]
+                           + ["stall-%s-%s" % (p, o) for p in ("connect", "line", "headers", "body", "between") for o in ("over", "under")],
+        "assumptions": ["time-outs count from the moment the server starts expecting the request (connection accepted / previous request completed)",
+                        "stall durations inside [T-0.3 s, T+0.8 s] are not judged (the half-second scan makes them undecidable)"],
+        "quick": {"batches": [("c14_limits", "plain", 6000)], "chunk": 100},
+        "thorough": {"batches": [("c14_limits", "plain", 200000), ("c14_limits", "asan", 10000)], "chunk": 500},
+    },
     "C06": {
         "rule": "1..3 connections x 1..8 writes (sizes 0..256 KiB, raw or file buffers, issued from the event-loop thread or an application thread) "
                 "against per-connection socket buffers/segment sizes/latencies and reader pacing drawn per run; short writes, would-block, spurious "
@@ -79,6 +102,10 @@ PROPS = {
 
 SC_NOTE = "sequentially consistent memory; the simulated kernel follows Linux semantics; a clean batch is evidence, not proof"
 MANIFEST_TEXT = {
+    "C08": {"level": "seeded search over connection-event histories (18 client behaviours, 1..6 concurrent connections, several rounds) with callback-sequence, exactly-once-release, descriptor-census and peer-release oracles",
+            "design_ref": "4.6", "note": "double releases are observed by the simulated kernel (close / epoll_ctl / I/O on a descriptor that is not open); " + SC_NOTE},
+    "C14": {"level": "seeded search over request sizes around the drawn limit x segmentations, and over stall points x stall durations on either side of the drawn time-outs, on the simulated clock",
+            "design_ref": "4.11", "note": "durations within 0.3 s below / 0.8 s above a time-out are not judged; " + SC_NOTE},
     "C06": {"level": "seeded search over write sequences, issuing threads, socket-buffer geometries, reader pacing and placements of short-write / would-block results; stream, promise, liveness and descriptor oracles on every run",
             "design_ref": "4.4", "note": "real Tcp::Listener/reactor/Transport on the simulated kernel; " + SC_NOTE},
     "C07": {"level": "seeded search over placements and durations of a would-block period on one connection relative to requests on neighbour connections of the same worker; latency, busy-wait and delivery oracles",
@@ -105,7 +132,5 @@ NOT_APPLICABLE = {
     "C01": "check under construction (DESIGN.md section 9); not yet claimed",
     "C03": "check under construction (DESIGN.md section 9); not yet claimed",
     "C04": "check under construction (DESIGN.md section 9); not yet claimed",
-    "C08": "check under construction (DESIGN.md section 9); not yet claimed",
-    "C14": "check under construction (DESIGN.md section 9); not yet claimed",
     "C15": "check under construction (DESIGN.md section 9); not yet claimed",
 }
